@@ -489,6 +489,68 @@ static void oscseq(void) {
   free(tokb);
 }
 
+/* oscproxy <secret> <salt> <idctx> <cid> <sid> <proxy-uri bytes> <msgspec> <cseq>
+ * a request built by the application with a Proxy-Uri option: libcoap first splits it
+ * (coap_rebuild_pdu_for_proxy, as coap_send does on an OSCORE session) and then protects it.
+ * <msgspec> is the message the split must produce (Uri-Host, Uri-Port, Uri-Path, Uri-Query,
+ * Hop-Limit, Proxy-Scheme + the other options): the reference protects that one; this driver
+ * takes from it only what is not derived from the URI. */
+static int from_uri(int n) {
+  return n == 3 || n == 7 || n == 11 || n == 15 || n == 16 || n == 39;
+}
+
+static void oscproxy(void) {
+  secspec_t s = { vtok[1], vtok[2], vtok[3] };
+  const char *cid = vtok[4], *sid = vtok[5];
+  msgspec_t m;
+  int i = msg_spec(7, &m);
+  uint64_t cseq = strtoull(vtok[i], NULL, 10);
+  size_t n, un;
+  uint8_t *b, *uri = bytes_of_tok(vtok[6], &un);
+  coap_pdu_t *pdu, *osc, *dec;
+  uint8_t *dg;
+  int ok, r, added = 0;
+  if (!ep_setup(&ep_client, &s, cid, sid, cseq) || !ep_setup(&ep_server, &s, sid, cid, 0)) {
+    puts("NOCTX");
+    free(uri);
+    return;
+  }
+  pdu = coap_pdu_init((coap_pdu_type_t)m.type, (coap_pdu_code_t)m.code, (coap_mid_t)m.mid, 0);
+  b = bytes_of_tok(m.token, &n);
+  ok = coap_add_token(pdu, n, b);
+  free(b);
+  for (int k = 0; ok && k < m.nopts; k++) {
+    int num = atoi(vtok[m.first_opt + 2 * k]);
+    if (from_uri(num)) continue;
+    if (num > 35 && !added) { ok = ok && coap_add_option(pdu, COAP_OPTION_PROXY_URI, un, uri); added = 1; }
+    b = bytes_of_tok(vtok[m.first_opt + 2 * k + 1], &n);
+    ok = ok && coap_add_option(pdu, (coap_option_num_t)num, n, b);
+    free(b);
+  }
+  if (!added) ok = ok && coap_add_option(pdu, COAP_OPTION_PROXY_URI, un, uri);
+  b = bytes_of_tok(m.payload, &n);
+  ok = ok && coap_add_data(pdu, n, b);
+  free(b);
+  free(uri);
+  if (!ok) { puts("BUILD-REFUSED"); coap_delete_pdu(pdu); return; }
+  if (!coap_rebuild_pdu_for_proxy(pdu)) { puts("p1=NONE (Proxy-Uri not split)"); coap_delete_pdu(pdu); return; }
+  fputs("split=[", stdout);
+  dump_pdu(stdout, pdu);
+  fputs("]", stdout);
+  osc = protect(&ep_client, pdu, 0);
+  coap_delete_pdu(pdu);
+  if (!osc) { puts(" p1=NONE"); return; }
+  dg = datagram_of(osc, &n);
+  coap_delete_pdu(osc);
+  fputs(" p1=", stdout);
+  show_full(stdout, dg, n);
+  fputs(" d1=", stdout);
+  r = receive(&ep_server, dg, n, &dec);
+  show_receive(stdout, r, dec);
+  free(dg);
+  fputc('\n', stdout);
+}
+
 /* oscmulti <peer A: secret salt idctx cid sid cseq sseq token> <peer B: same> <step>*
  * two security contexts at ONE server endpoint / session, two client endpoints; requests
  * interleaved, responses delayed or out of order.  See ocaml/d_oscore.ml. */
@@ -566,6 +628,7 @@ int main(void) {
     else if (!strcmp(vtok[0], "oscderive")) oscderive();
     else if (!strcmp(vtok[0], "oscseq")) oscseq();
     else if (!strcmp(vtok[0], "oscmulti")) oscmulti();
+    else if (!strcmp(vtok[0], "oscproxy")) oscproxy();
     else puts("ERROR unknown command");
     fflush(stdout);
   }
